@@ -3,6 +3,7 @@
 use vstd::prelude::*;
 use vstd::std_specs::iter::IteratorSpec;
 verus! {
+//@ rewrite R2 "dyn CosmosRouter<ExecC = ExecC, QueryC = QueryC>" => "dyn CosmosRouter<ExecC, QueryC>"
 //@ include prelude/base.rs
 //@ include spec/lex.rs
 //@ include prelude/std_ext.rs
